@@ -49,6 +49,8 @@ def run_case(c):
                             fr.data[...] += 7.0
                         elif op[1] == "rebind":
                             fr.data = fr.data * 2.0 + 1.0
+                        elif op[1] == "rename":
+                            fr.source_name = "RENAMED_%d" % len(hist)       # the frame's name is what is written, whatever an earlier Waterfall said
                         elif op[1] == "signal":
                             fr.add_constant_signal(f_start=fr.get_frequency(fr.fchans // 2), drift_rate=0.0, level=5000.0, width=2 * fr.df, f_profile_type="box")
                         else:
